@@ -14,7 +14,7 @@ def run_harness(run, sub, n, extra=(), timeout=900):
     args = [sub, str(n)] + list(extra)
     rc, out, err = vlib.harness("frame", args, run.seed, timeout=timeout)
     recs = []
-    for line in out.splitlines():
+    for line in out.split("\n"):
         line = line.strip()
         if not line:
             continue
